@@ -275,6 +275,10 @@ class UnitRunner:
             self.paths += 1
             env = dict(self.instance)
             ip.spec_env = env
+            if c.get("json_model"):
+                # json.loads(x) is modelled by the contract variable named in json_model (JSON parsing itself is not verified)
+                ip.json_loads_model = lambda ip_, arg, _n=c["json_model"]: env[_n]
+                path.assumptions.add(f"json.loads is modelled: it returns the contract variable {c['json_model']!r}")
             ip.obligation_sink = self.sink(ip, lambda: env)
             ip.on_effect = None
             try:
